@@ -1,3 +1,68 @@
-From DMCG Require Import IdentInst.
-Theorem C07_stub : True. Proof. exact I. Qed.
-Print Assumptions C07_stub.
+(* C07 - member names are legal identifiers and wire names are preserved.
+   Only statements, instantiations and Print Assumptions here; proofs are in proofs/IdentProofs.v.
+   U0 holds the tables reflected from /repo and the running CPython on this run. *)
+From DMCG Require Import IdentInst IdentProofs.
+Open Scope N_scope.
+
+(* table obligations, decided by computation on the reflected tables: _ and the digits are identifier
+   characters, start characters are continue characters, lower/upper keep identifier-ness (and
+   start-ness) of every character, no keyword or BaseModel attribute ends with a digit, and adding _
+   to a keyword or to a BaseModel attribute never gives a BaseModel attribute *)
+Theorem C07_tables_ok : utab_ok U0 = true.
+Proof. vm_compute. reflexivity. Qed.
+
+(* for every string, every option vector with a sane special prefix, every resolver kind and every
+   excludes set: the call terminates within |excludes|+2 retries (never IndexError, never out of fuel)
+   and the result is an identifier, not a keyword, not excluded, does not start with an underscore,
+   is not a BaseModel attribute (pydantic resolver) and is not mro (enum resolver) *)
+Theorem C07_terminates_legal_fresh :
+  forall kd o excl ign name,
+    prefix_ok U0 (o_prefix o) = true ->
+    exists r, get_valid_name U0 (2 + List.length excl) kd o excl ign name = Ok r
+      /\ legal U0 r = true
+      /\ mem_str r excl = false
+      /\ hd_is (N.eqb c_us) r = false
+      /\ (kd = Pyd -> o_cap o = false -> mem_str r (u_attrs U0) = false)
+      /\ (kd = Enm -> str_eqb r s_mro = false).
+Proof. exact (gvn_total U0 C07_tables_ok). Qed.
+
+(* whenever the identifier differs from the original name, the original is kept as alias *)
+Theorem C07_alias_kept :
+  forall kd o aliases excl field,
+    prefix_ok U0 (o_prefix o) = true ->
+    exists v a, field_name_and_alias U0 (2 + List.length excl) kd o aliases excl field = Ok2 v a
+      /\ (o_noalias o = false -> v <> field -> a = Some field)
+      /\ (a = None \/ a = Some field)
+      /\ (assoc_str aliases field = None ->
+          legal U0 v = true /\ mem_str v excl = false /\ hd_is (N.eqb c_us) v = false).
+Proof. exact (fna_alias U0 C07_tables_ok). Qed.
+
+(* the members of one class get pairwise distinct legal names, each with its wire name as alias *)
+Theorem C07_class_names_distinct :
+  forall kd o fields excl,
+    prefix_ok U0 (o_prefix o) = true ->
+    exists l, assign_names U0 kd o [] excl fields = Some l
+      /\ List.length l = List.length fields
+      /\ NoDup (map fst l)
+      /\ (forall v, In v (map fst l) -> ~ In v excl /\ legal U0 v = true)
+      /\ (forall f v a, In (f, (v, a)) (combine fields l) -> o_noalias o = false -> v <> f -> a = Some f).
+Proof. exact (fun kd o fields excl => assign_names_nodup U0 C07_tables_ok kd o fields excl). Qed.
+
+(* non-vacuity: the default prefix satisfies the hypothesis, and hard names evaluate as expected *)
+Definition o_default : opts :=
+  {| o_snake := false; o_delim := None; o_prefix := S "field"; o_remove := false; o_cap := false;
+     o_noalias := false; o_empty := [] |}.
+Example C07_prefix_ok_default : prefix_ok U0 (o_prefix o_default) = true.
+Proof. vm_compute. reflexivity. Qed.
+Example C07_circled_one :
+  get_valid_name U0 2 Pyd o_default [] false [9312] = Ok (S "field_").
+Proof. vm_compute. reflexivity. Qed.
+Example C07_class_keyword_collision :
+  assign_names U0 Pyd o_default [] [] [S "class"; S "class_"; S "1a"]
+  = Some [(S "class_", Some (S "class")); (S "class__1", Some (S "class_")); (S "field_1a", Some (S "1a"))].
+Proof. vm_compute. reflexivity. Qed.
+
+Print Assumptions C07_tables_ok.
+Print Assumptions C07_terminates_legal_fresh.
+Print Assumptions C07_alias_kept.
+Print Assumptions C07_class_names_distinct.
